@@ -39,12 +39,10 @@ def confirm(chk, ex):
 
 def main(tier, seed):
     chk = Check("C19", tier, seed, technique="symbolic execution of f and f_grad on a symbolic x; the term produced by f is differentiated (sum/product/quotient/chain rules, sin/cos/exp uninterpreted + Ackermann, sqrt as algebraic atom) and compared with f_grad as normal forms / by z3")
-    nmax = 6 if tier == "quick" else 12
+    nmax = 12
     jobs = []
     for name in H.NAMES:
         for n in range(2 if name in H.CHAINED else 1, nmax + 1):
-            if name == "griewank" and n > (5 if tier == "quick" else 8):
-                continue    # 2^n cos!=0 forks
             jobs.append(("harness.c19:path", dict(name=name, n=n)))
     exs = driver.explore_many(jobs, time_limit=900 if tier == "quick" else 3600, timeout_ms=30000)
     W = common.world()
@@ -68,7 +66,7 @@ def main(tier, seed):
             chk.validation_mismatch.append(dict(case=c, real=r, note="symbolic identity holds but the real pair disagrees with the numeric derivative"))
     chk.sample(dict(obligation="f_grad(x)[i] != d/dx_i T(x) for some i, T = term returned by the real f on symbolic x", example=dict(name="rosenbrock", n=3)))
     chk.functions = W.functions_encoded(H.FUNCS)
-    chk.bounds = dict(n="1..%d (2.. for beale, rosenbrock; griewank to %d)" % (nmax, 5 if tier == "quick" else 8), domain="[-5,5]^n; Ackley: sum x^2 >= 1/100; Griewank: cos(x_i/sqrt(i)) != 0")
+    chk.bounds = dict(n="1..%d (2.. for beale, rosenbrock)" % nmax, domain="[-5,5]^n; Ackley: sum x^2 >= 1/100; Griewank: cos(x_i/sqrt(i)) != 0")
     chk.outside = ["dimensions above the bound", "points outside [-5,5]^n", "float64 rounding of the closed forms"]
     chk.assumptions = ["sin, cos, exp are uninterpreted (only functional consistency + derivative rules): unsat holds for every interpretation, hence the real one",
                        "pi is a symbol with 3.14159 < pi < 3.1416", "constants read as the decimals written in the source (0.2 = 1/5)"]
